@@ -814,6 +814,10 @@ def check_all(W, where):
     for j, mb in enumerate(members):
         got = float(mb.fit.cost_function_value)
         exp = mb.cost()
+        if not np.isfinite(exp):
+            # the minimiser ran off to a point where the reference itself overflows the double range (squared residuals ~ 1e308): no reference there
+            ctx.discard("reference-cost-not-finite-at-this-point")
+            return True
         con = mb.ref.constraint_cost()
         nodet = mb.cost(with_logdet=False)
         scale = abs(nodet - con) + abs(exp - nodet) + abs(con) + 1.0
